@@ -14,7 +14,7 @@ THEOREM_MODULES = ['ExaModel.Props.C11']
 DRIVERS = ['drv_rib']
 TABLES: list[str] = []  # no generated table is used by this property
 ASSUMPTIONS = C04.ASSUMPTIONS + [
-    'RIB part only: the End-of-RIB markers and the reconnect path are covered by the session rig (C05/C10)',
+    'End-of-RIB ordering and the reconnect path are checked end to end on the real Peer.run() (session rig) for a sample of flap scenarios; the theorems are about the RIB model',
     'include_withdraw=False at session start is set by the harness as Peer._main does (local variable of _main)',
 ]
 
@@ -63,13 +63,127 @@ def run(ctx: Ctx) -> None:
                 continue
             seen.add(json.dumps(canon))
             ctx.failures.append(Failure('rib-history', canon, {'configured': configured, 'pre': pre, 'cache_on': False}, f'adj-rib-out off: after a flap the peer holds {res["table"]} instead of the configured {res["want"]}'))
+    try:
+        run_flap(ctx)
+    except ImportError as e:
+        ctx.notes.append(f'end-to-end flap stream not run: {e}')
 
 
 def replay(path: str) -> int:
     data = json.loads(open(path).read())
     rp = data['replay']
+    if rp.get('flap'):
+        from harness import sessionrig
+        sessionrig.install()
+        print(sessionrig.run_flap_scenario(rp['routes'], rp['cut'], rp['ops']))
+        return 1
     if rp.get('cache_on', True):
         return C04.replay(path)
     res = run_nocache(rp['pre'], [tuple(x) for x in rp['configured']])
     print(res)
     return 0 if res['ok'] else 1
+
+
+# ---------------------------------------------------------------------------------------------
+# End to end: the real Peer.run() over sockets (session rig), session cut after n messages,
+# API operations while down, second session observed by the remote.
+
+
+def _flap_decode(rig_neg_in, msgs):
+    """(table, eors, order) from the messages of one session as the remote received them."""
+    from exabgp.bgp.message import Message
+    from exabgp.bgp.message.update.attribute import Attribute
+    from exabgp.bgp.message.update.attribute.collection import AttributeCollection
+
+    table: dict = {}
+    eors: list = []
+    last_update = -1
+    first_eor = None
+    for i, (kind, hexmsg) in enumerate(msgs):
+        raw = bytes.fromhex(hexmsg)
+        if raw[18] != 2:
+            continue
+        AttributeCollection.cached = None
+        AttributeCollection.previous = b''
+        m = Message.unpack(2, raw[19:], rig_neg_in)
+        if type(m).__name__ == 'EOR':
+            eors.append((int(m.nlris[0].afi), int(m.nlris[0].safi)))
+            if first_eor is None:
+                first_eor = i
+            continue
+        d = m.data
+        for nlri in d.withdraws:
+            table.pop(str(nlri).split(' ')[0], None)
+        for routed in d.announces:
+            med = d.attributes.get(Attribute.CODE.MED, None)
+            table[str(routed.nlri).split(' ')[0]] = (int(med.med) if med is not None else 0, str(routed.nexthop))
+        last_update = i
+    return table, eors, (last_update, first_eor)
+
+
+def run_flap(ctx: Ctx) -> None:
+    from exabgp.bgp.message.direction import Direction
+    from harness import sessionrig, sessions
+
+    rng = ctx.rng
+    sessionrig.install()
+    n = 12 if ctx.tier == 'quick' else 200
+    seen = set()
+    for i in range(n):
+        if ctx.time_left() < 10:
+            ctx.notes.append('flap stream stopped by the time budget')
+            break
+        nl = rng.sample(sorted(ribrig.NLRIS), rng.randrange(1, 5))
+        conf = {k: (rng.choice([1, 2, 3]), 1) for k in nl}
+        routes_text = [ribrig.route_text(k, a, h) for k, (a, h) in conf.items()]
+        cut = rng.randrange(0, len(routes_text) + 3)
+        ops = []
+        intended = {ribrig.NLRIS[k]: (a, ribrig.nh_text(k, h)) for k, (a, h) in conf.items()}
+        for _ in range(rng.randrange(0, 4)):
+            k = rng.choice(sorted(ribrig.NLRIS))
+            x = rng.random()
+            if x < 0.45:
+                a, h = rng.choice([1, 2, 3]), rng.choice([1, 2])
+                ops.append(['announce', ribrig.route_text(k, a, h)])
+                intended[ribrig.NLRIS[k]] = (a, ribrig.nh_text(k, h))
+            elif x < 0.85:
+                a, h = conf.get(k, (1, 1))
+                ops.append(['withdraw', ribrig.route_text(k, a, h)])
+                intended.pop(ribrig.NLRIS[k], None)
+            else:
+                ops.append(['flush'])
+        try:
+            res = sessionrig.run_flap_scenario(routes_text, cut, ops)
+        except Exception as e:  # noqa: BLE001
+            ctx.disagreements.append(Disagreement('flap-rig', {'routes': routes_text, 'cut': cut, 'ops': ops}, None, f'{type(e).__name__}: {e}'))
+            continue
+        ctx.evaluations += 1
+        ctx.count('flap-case')
+        ctx.count('flap-cut:%s' % ('0' if cut == 0 else 'mid' if cut <= len(routes_text) else 'after'))
+        cfg, nb = sessions.make_config(families='ipv4 unicast ipv6 unicast')
+        neg_in = sessions.negotiate(nb, direction=Direction.IN)
+        table, eors, (last_update, first_eor) = _flap_decode(neg_in, res['second'])
+        ctx.nontrivial(['flap', sorted(conf), cut, ops])
+        ctx.sample({'flap': {'routes': routes_text, 'cut_after': cut, 'ops_while_down': ops, 'second_session': [k for k, _ in res['second']]}}, cap=4)
+        problems = []
+        if table != intended:
+            problems.append(f'second session gives {table}, intended {intended}')
+        want_eors = sorted({(1, 1), (2, 1)})
+        if sorted(set(eors)) != want_eors or len(eors) != len(set(eors)):
+            problems.append(f'End-of-RIB markers {eors}, expected one for each of {want_eors}')
+        if first_eor is not None and last_update > first_eor and not ops_after_eor_allowed(res):
+            problems.append('an End-of-RIB marker precedes part of the initial table')
+        if res.get('fsm') != 'ESTABLISHED':
+            problems.append(f'second session ended in {res.get("fsm")}')
+        if problems:
+            canon = ['flap', 'table' if 'second session gives' in problems[0] else 'eor']
+            if json.dumps(canon) in seen:
+                continue
+            seen.add(json.dumps(canon))
+            ctx.failures.append(Failure('rib-history', canon, {'flap': True, 'routes': routes_text, 'cut': cut, 'ops': ops}, '; '.join(problems)))
+
+
+def ops_after_eor_allowed(res: dict) -> bool:
+    # nothing is announced after establishment in these scenarios: every UPDATE of the second
+    # session belongs to the initial table, so none may follow an End-of-RIB marker
+    return False
